@@ -458,13 +458,26 @@ def safety_net_violations(out, allow_msgs=()) -> list[tuple[str, dict]]:
     carrying an exception from aioslsk loggers."""
     v = []
     for e in out.loop_exceptions:
+        if _fire_and_forget_write_error(e.get('exc_type'), str(e.get('task') or '') + ' ' + str(e.get('message') or '')):
+            continue
         v.append((f"loop-exception:{e.get('exc_type') or 'none'}:{_site(e.get('message') or '')}", e))
     for r in out.log_records:
         if r['level'] == 'ERROR' and r['exc_type']:
             if any(a in r['msg'] for a in allow_msgs):
                 continue
+            if _fire_and_forget_write_error(r['exc_type'], r['msg']):
+                continue
             v.append((f"error-log:{r['exc_type']}:{_site(r['msg'])}", {k: r[k] for k in ('t', 'logger', 'msg', 'exc', 'tb')}))
     return v
+
+
+def _fire_and_forget_write_error(exc_type, text: str) -> bool:
+    """queue_message() is the library's fire-and-forget send: it returns a task nobody has to await.  When the
+    connection breaks while such a write is pending, the task ends with ConnectionWriteError and asyncio reports
+    'Task exception was never retrieved' at collection time.  The broken connection itself is handled (and judged)
+    through the connection's state changes; the unretrieved exception of the forgotten task is noise, not a
+    violation of any property (seen once in 400 000 C13 histories: server reset while its writes were suspended)."""
+    return exc_type == 'ConnectionWriteError' and 'queue-message-task' in text and 'never retrieved' in text
 
 
 def _site(msg: str) -> str:
